@@ -41,7 +41,7 @@ Section Top.
   Lemma rl_chan_drop_tx ch H : RL H (chan_drop_tx ch H).
   Proof. unfold chan_drop_tx. destruct (ch_tx (gch ch H)); [|apply rl_refl]. eapply rl_trans; [|apply rl_wake_cell]. apply rl_same; reflexivity. Qed.
   Lemma rl_drop_req e H : RL H (drop_req e H).
-  Proof. unfold drop_req. destruct (e_res e); [apply rl_refl | apply rl_chan_drop_tx | apply rl_chan_drop_tx]. Qed.
+  Proof. unfold drop_req. destruct (e_res e); [apply rl_refl | apply rl_chan_drop_tx | apply rl_chan_drop_tx | apply rl_refl]. Qed.
   Lemma rl_sub_drop q H : RL H (sub_drop q H).
   Proof. unfold sub_drop. destruct q as [s d tg v ch|m]; [|apply rl_refl]. destruct d; [apply rl_refl | apply rl_same; reflexivity]. Qed.
   Lemma rl_drop : forall fuel,
@@ -53,6 +53,7 @@ Section Top.
       + destruct (f_leaf fs); try apply rl_refl.
         * destruct dead; [apply rl_refl | apply rl_same; reflexivity].
         * apply IHcmd.
+        * apply rl_same; reflexivity.
         * eapply rl_trans; apply rl_sub_drop.
         * eapply rl_trans; apply rl_sub_drop.
       + intros fr Hh. apply rl_same; reflexivity.
@@ -120,6 +121,9 @@ Proof.
     assert (M1 : Rmeta H H1) by (pose proof (rm_chan_send c v H) as M; rewrite E1 in M; exact M).
     assert (S1 : suffX top H H1) by (pose proof (sx_chan_send top c v H) as S; rewrite E1 in S; exact S).
     split; [eapply Rmeta_trans; [exact M1 | apply rm_chan_drop_tx] | eapply sx_trans; [exact S1 | apply sx_chan_drop_tx]].
+  - destruct (chan_send c v H) as [ok H1] eqn:E1. intros E; inversion E; subst.
+    split; [pose proof (rm_chan_send c v H) as M; rewrite E1 in M; exact M
+           | pose proof (sx_chan_send top c v H) as S; rewrite E1 in S; exact S].
   - destruct (chan_send c v H) as [ok H1] eqn:E1. intros E; inversion E; subst.
     split; [pose proof (rm_chan_send c v H) as M; rewrite E1 in M; exact M
            | pose proof (sx_chan_send top c v H) as S; rewrite E1 in S; exact S].
@@ -252,9 +256,9 @@ Qed.
 Lemma new_cmd_K names en m ex :
   K (fst (new_cmd names None en m ex H0)) names (mkD [] (snd (new_cmd names None en m ex H0))).
 Proof.
-  unfold new_cmd, new_tflag. cbn [fst snd H0 tfl cmds chans woken xready aborted log length app].
+  unfold new_cmd, new_tflag. cbn [fst snd H0 tfl cmds chans woken xready aborted log hout length app].
   set (c0 := mkCmd true [0] [] [Occ (mkT 0 (fs_of en m))] 1 1 [] [] None names 0 0).
-  set (Hb := mkH [] [mkTF false false true []] [c0] [] [] [] []).
+  set (Hb := mkH [] [mkTF false false true []] [c0] [] [] [] [] []).
   match goal with |- K 0 names (mkD [] (fold_left ?g ex Hb)) =>
     assert (M : Rmeta Hb (fold_left g ex Hb)) end.
   { apply (R_fold Rmeta Rmeta_refl Rmeta_trans). intros t Hh. cbv beta iota.
